@@ -248,3 +248,29 @@ def new_error_contracts():
 def install(E):
     E.models[ERR + ":Error.from_name"] = m_from_name
     E.attr_models["ErrorsGhost"] = errors_ghost_attr
+
+
+def status_contract():
+    """Errors.status == 'OK' iff no element has level 'Error' (levels are Error | Notice)"""
+    class Inner:
+        pass
+    holder = {}
+
+    def setup(E, st):
+        n = z3.Int(fresh_name("ninner"))
+        lvl = z3.Function(fresh_name("level"), I, I)
+        st.assume(n >= 0)
+        K = z3.Int(fresh_name("k"))
+        st.assume(z3.ForAll([K], z3.Or(lvl(K) == KINDS.code("Error"), lvl(K) == KINDS.code("Notice"))))
+        holder["n"], holder["lvl"] = n, lvl
+        cls = E.repo.find_class(ERR, "Errors")
+        inner = st.alloc(ObjCell("ErrSeq", {"__len__": SInt(n)}))
+        E.seq_models["ErrSeq"] = lambda E_, s, ref: (n, lambda i, s2=None: (s2 if s2 is not None else s).alloc(ObjCell("ErrElem", {"level": SKind(lvl(i))})))
+        E.spec_builtins["level_at"] = Builtin("level_at", lambda E_, s, a, k: [(s, SKind(lvl(int_term(a[0]))))])
+        E.spec_builtins["ninner"] = Builtin("ninner", lambda E_, s, a, k: [(s, SInt(n))])
+        return {"self": st.alloc(ObjCell(cls, {"_inner": inner}))}
+    c = Contract(ERR + ":Errors.status", setup=setup)
+    c.ens("(result == 'OK') == forall(0, ninner(), lambda k: level_at(k) != 'Error')", "ok_iff_no_error")
+    c.ens("result == 'OK' or result == 'Error'", "two_valued")
+    c.assumes.append("every diagnostic level is 'Error' or 'Notice' (ErrorLevel literal; call sites pass constants)")
+    return c
